@@ -1,4 +1,5 @@
 """C05 proxy-owned headers cannot be spoofed or duplicated."""
+import time
 import e2e
 import pipe
 import pipegen
@@ -71,6 +72,22 @@ def run(chk):
                     if rng.chance(1, 2):
                         case["env"][ep] = None
             runner.run_case(case)
+        # a keep-alive connection that stays open for a while: the date header of a later request is the time of THAT request
+        for k in range(2 if chk.tier == "quick" else 12):
+            case = pipegen.gen_case(rng, callers, st, spoof=True, dest_label="imds", with_key=True)
+            for ep in ("ws", "imds", "hostga"):
+                case["env"][ep] = None
+            case["req"]["headers"] = [h for h in case["req"]["headers"] if h[0].lower() != b"connection"]
+            o1 = runner.run_case(case, keep_conn=True)
+            conn = o1["conn"]
+            o1["conn"] = None
+            time.sleep(3.2)
+            case2 = dict(case, req=dict(case["req"]), label="keepalive-after-pause")
+            chk.count("keepalive_request_after_pause")
+            try:
+                runner.run_case(case2, conn=conn)
+            finally:
+                conn.close()
         runner.finish(oracle)
         chk.sample(runner.describe(runner.observations[0]))
     finally:
